@@ -524,7 +524,7 @@ func genConfig(r *gen.Rand) *config {
 			}
 			if f.Via >= 2 {
 				if r.Chance(2, 3) {
-					f.Field = gen.Pick(r, []string{"upload", "doc", "file", "a b", "fé"})
+					f.Field = gen.Pick(r, []string{"upload", "doc", "file", "a b", "fé", "q\"t", "b\\s", "x;y=z", "日本", "p%20", genVal(r, vFileName, false).S})
 				}
 			}
 			cf.Files = append(cf.Files, f)
@@ -1364,8 +1364,11 @@ func (cf *config) judge(p *parsed) []finding {
 			if f.Field != "" && classOf(f.Field) != clPlain {
 				cls = "field-" + classOf(f.Field)
 			}
-			if f.Via == 3 {
+			if f.Via == 3 && !strings.ContainsAny(f.Name+f.Field, "\"\\") {
 				cls = "explicit-name-with-path"
+			}
+			if strings.ContainsAny(f.Name+f.Field, "\"\\") {
+				cls = "quote-or-backslash-in-name"
 			}
 			out = append(out, finding{"fidelity|file|missing-or-altered|" + cls, "file part did not arrive with name, field and content",
 				map[string]any{"index": i, "field": f.Field, "name": strconv.QuoteToASCII(f.Name), "hash": h, "size": len(f.Content), "received": p.Files}})
